@@ -297,7 +297,8 @@ type polInst struct {
 	kind         string
 	vpf          int // 0 none, 1 accepting, 2 rejecting
 	rpf          bool
-	eqf          int // 0 none, 1 -> nil, 2 -> errE
+	rpfEmpty     bool // the installed presentation closure answers with the empty string
+	eqf          int // 0 none, 1 -> nil, 2 -> errE, 3 -> an error naming the type of the comparand it was handed
 	umf          bool
 	umfPartial   bool // the installed Unmarshaler answers with a partial slice AND an error
 	maf          bool
@@ -344,7 +345,7 @@ func c14PolOps(isCond bool) []polOp {
 			f(in)
 			if before.ro && n != "SetErr(nil)" && !strings.HasPrefix(n, "SetReadOnly") {
 				// refused: the call was made, the closures stay as they were
-				in.vpf, in.rpf, in.eqf, in.umf, in.maf, in.evl, in.basicRefused, in.umfPartial = before.vpf, before.rpf, before.eqf, before.umf, before.maf, before.evl, before.basicRefused, before.umfPartial
+				in.vpf, in.rpf, in.eqf, in.umf, in.maf, in.evl, in.basicRefused, in.umfPartial, in.rpfEmpty = before.vpf, before.rpf, before.eqf, before.umf, before.maf, before.evl, before.basicRefused, before.umfPartial, before.rpfEmpty
 			}
 		}})
 	}
@@ -353,6 +354,8 @@ func c14PolOps(isCond bool) []polOp {
 	present := func(...any) string { return "PRESENTED" }
 	eqNil := func(a, b any) error { return nil }
 	eqErr := func(a, b any) error { return errE }
+	presentNothing := func(...any) string { return "" }
+	eqTyped := c14EqTyped
 	unm := func(...any) ([]any, error) { return []any{"UNMARSHALED"}, nil }
 	unmPartial := func(...any) ([]any, error) { return []any{"UNMARSHALED"}, errU }
 	mar := c14Marshaler
@@ -361,10 +364,12 @@ func c14PolOps(isCond bool) []polOp {
 		add("SetValidityPolicy(accept)", func(in *polInst) { in.cd.SetValidityPolicy(vAccept); in.vpf = 1 })
 		add("SetValidityPolicy(reject)", func(in *polInst) { in.cd.SetValidityPolicy(vReject); in.vpf = 2 })
 		add("SetValidityPolicy(nil)", func(in *polInst) { in.cd.SetValidityPolicy(nil); in.vpf = 0 })
-		add("SetPresentationPolicy(fn)", func(in *polInst) { in.cd.SetPresentationPolicy(present); in.rpf = true })
-		add("SetPresentationPolicy(nil)", func(in *polInst) { in.cd.SetPresentationPolicy(nil); in.rpf = false })
+		add("SetPresentationPolicy(fn)", func(in *polInst) { in.cd.SetPresentationPolicy(present); in.rpf, in.rpfEmpty = true, false })
+		add("SetPresentationPolicy(fn answering \"\")", func(in *polInst) { in.cd.SetPresentationPolicy(presentNothing); in.rpf, in.rpfEmpty = true, true })
+		add("SetPresentationPolicy(nil)", func(in *polInst) { in.cd.SetPresentationPolicy(nil); in.rpf, in.rpfEmpty = false, false })
 		add("SetEqualityPolicy(nil-result)", func(in *polInst) { in.cd.SetEqualityPolicy(eqNil); in.eqf = 1 })
 		add("SetEqualityPolicy(error-result)", func(in *polInst) { in.cd.SetEqualityPolicy(eqErr); in.eqf = 2 })
+		add("SetEqualityPolicy(result names the comparand's type)", func(in *polInst) { in.cd.SetEqualityPolicy(eqTyped); in.eqf = 3 })
 		add("SetEqualityPolicy()", func(in *polInst) { in.cd.SetEqualityPolicy(); in.eqf = 0 })
 		add("SetEqualityPolicy(nil)", func(in *polInst) { in.cd.SetEqualityPolicy(nil); in.eqf = 0 })
 		add("SetUnmarshaler(fn)", func(in *polInst) { in.cd.SetUnmarshaler(unm); in.umf, in.umfPartial = true, false })
@@ -385,7 +390,15 @@ func c14PolOps(isCond bool) []polOp {
 		if in.kind == "BASIC" {
 			in.basicRefused = true
 		} else {
-			in.rpf = true
+			in.rpf, in.rpfEmpty = true, false
+		}
+	})
+	add("SetPresentationPolicy(fn answering \"\")", func(in *polInst) {
+		in.s.SetPresentationPolicy(presentNothing)
+		if in.kind == "BASIC" {
+			in.basicRefused = true
+		} else {
+			in.rpf, in.rpfEmpty = true, true
 		}
 	})
 	add("SetPresentationPolicy(nil)", func(in *polInst) {
@@ -393,11 +406,12 @@ func c14PolOps(isCond bool) []polOp {
 		if in.kind == "BASIC" {
 			in.basicRefused = true // a BASIC stack refuses the call as such and records an error
 		} else {
-			in.rpf = false
+			in.rpf, in.rpfEmpty = false, false
 		}
 	})
 	add("SetEqualityPolicy(nil-result)", func(in *polInst) { in.s.SetEqualityPolicy(eqNil); in.eqf = 1 })
 	add("SetEqualityPolicy(error-result)", func(in *polInst) { in.s.SetEqualityPolicy(eqErr); in.eqf = 2 })
+	add("SetEqualityPolicy(result names the comparand's type)", func(in *polInst) { in.s.SetEqualityPolicy(eqTyped); in.eqf = 3 })
 	add("SetEqualityPolicy()", func(in *polInst) { in.s.SetEqualityPolicy(); in.eqf = 0 })
 	add("SetEqualityPolicy(nil)", func(in *polInst) { in.s.SetEqualityPolicy(nil); in.eqf = 0 })
 	add("SetUnmarshaler(fn)", func(in *polInst) { in.s.SetUnmarshaler(unm); in.umf, in.umfPartial = true, false })
@@ -487,8 +501,8 @@ func c14PolMachine(c *Ctx, kind string) *Machine[*polInst] {
 						bad("cond-string", "String()=%q although Valid() reports an error", got)
 					}
 				case in.rpf:
-					if got != "PRESENTED" {
-						bad("cond-string", "String()=%q want the presentation closure's result", got)
+					if want := map[bool]string{false: "PRESENTED", true: ""}[in.rpfEmpty]; got != want {
+						bad("cond-string", "String()=%q want the presentation closure's result %q", got, want)
 					}
 				case builtinValid:
 					if want := in.ct.String(); got != want {
@@ -501,10 +515,15 @@ func c14PolMachine(c *Ctx, kind string) *Machine[*polInst] {
 				}
 				eq := in.cd.IsEqual(mkCond())
 				wantEq := map[int]error{0: nil, 1: nil, 2: errE}[in.eqf]
-				if got := in.cd.IsEqual(in.cd); got != wantEq {
+				if in.eqf == 3 {
+					ca, cn := CondAlias(mkCond()), mkCond()
+					if msg := c14TypedVerdicts(func(x any) error { return in.cd.IsEqual(x) }, mkCond(), ca, &ca, &cn, in.cd); msg != "" {
+						bad("cond-isequal-comparand", "%s", msg)
+					}
+				} else if got := in.cd.IsEqual(in.cd); got != wantEq {
 					bad("cond-isequal-self", "IsEqual(itself)=%v want %v (equality closure state %d)", got, wantEq, in.eqf)
 				}
-				if eq != wantEq {
+				if in.eqf != 3 && eq != wantEq {
 					bad("cond-isequal", "IsEqual(copy)=%v want %v (equality closure state %d)", eq, wantEq, in.eqf)
 				}
 				if in.eqf == 0 {
@@ -562,7 +581,7 @@ func c14PolMachine(c *Ctx, kind string) *Machine[*polInst] {
 			}
 			wantStr := in.tw.String()
 			if in.rpf {
-				wantStr = "PRESENTED"
+				wantStr = map[bool]string{false: "PRESENTED", true: ""}[in.rpfEmpty]
 			}
 			if in.vpf == 2 || in.kind == "BASIC" {
 				wantStr = ""
@@ -581,7 +600,16 @@ func c14PolMachine(c *Ctx, kind string) *Machine[*polInst] {
 			eq := s.IsEqual(in.tw)
 			wantEq := map[int]error{0: nil, 1: nil, 2: errE}[in.eqf]
 			// the closure decides for every comparand, the receiver itself (or an alias of it) included
+			if in.eqf == 3 {
+				ta, tn := StackAlias(in.tw), in.tw
+				if msg := c14TypedVerdicts(func(x any) error { return s.IsEqual(x) }, in.tw, ta, &ta, &tn, s, StackAlias(s)); msg != "" {
+					bad("isequal-comparand", "%s", msg)
+				}
+			}
 			for what, self := range map[string]any{"itself": s, "an alias of itself": StackAlias(s), "a pointer to itself": &s} {
+				if in.eqf == 3 {
+					break
+				}
 				if got := s.IsEqual(self); got != wantEq {
 					bad("isequal-self", "IsEqual(%s)=%v want %v (equality closure state %d)", what, got, wantEq, in.eqf)
 				}
@@ -590,7 +618,7 @@ func c14PolMachine(c *Ctx, kind string) *Machine[*polInst] {
 				if eq == nil {
 					bad("isequal", "built-in IsEqual accepts a stack with %d extra elements", in.extra)
 				}
-			} else if eq != wantEq {
+			} else if in.eqf != 3 && eq != wantEq {
 				bad("isequal", "IsEqual(twin)=%v want %v (equality closure state %d)", eq, wantEq, in.eqf)
 			}
 			if in.extra == 0 {
@@ -639,9 +667,9 @@ func c14PolMachine(c *Ctx, kind string) *Machine[*polInst] {
 		},
 		Key: func(in *polInst) string {
 			if isCond {
-				return stackage.VerifDump(in.cd).Key(false) + fmt.Sprint("|model:", in.vpf, in.rpf, in.eqf, in.umf, in.umfPartial, in.evl, in.ro)
+				return stackage.VerifDump(in.cd).Key(false) + fmt.Sprint("|model:", in.vpf, in.rpf, in.rpfEmpty, in.eqf, in.umf, in.umfPartial, in.evl, in.ro)
 			}
-			return stackage.VerifDump(in.s).Key(false) + fmt.Sprint("|model:", in.vpf, in.rpf, in.eqf, in.umf, in.umfPartial, in.maf, in.ro, in.basicRefused)
+			return stackage.VerifDump(in.s).Key(false) + fmt.Sprint("|model:", in.vpf, in.rpf, in.rpfEmpty, in.eqf, in.umf, in.umfPartial, in.maf, in.ro, in.basicRefused)
 		},
 	}
 }
@@ -650,6 +678,20 @@ func c14PolMachine(c *Ctx, kind string) *Machine[*polInst] {
 // of a Stack, a Condition's expression, an entry of a slice leaf), on the receiver's side: its closure (or,
 // without one, the built-in comparison) gives the verdict there too. same is an equal instance without
 // closure, other a different one.
+// c14EqTyped is an equality closure whose verdict depends on what it is handed: IsEqual(x) "returns that
+// closure's result" means the closure's result for the caller's x.
+func c14EqTyped(a, b any) error { return fmt.Errorf("equality closure was handed a %T", b) }
+
+func c14TypedVerdicts(isEqual func(any) error, comparands ...any) string {
+	for _, x := range comparands {
+		got, want := isEqual(x), c14EqTyped(nil, x)
+		if got == nil || got.Error() != want.Error() {
+			return fmt.Sprintf("IsEqual(%T)=%v, want the equality closure's answer for that very comparand: %v", x, got, want)
+		}
+	}
+	return ""
+}
+
 func c14Nested(x, same, other any, eqf int) string {
 	wrap := []struct {
 		n string
@@ -673,7 +715,7 @@ func c14Nested(x, same, other any, eqf int) string {
 			case stackage.Condition:
 				err = a.IsEqual(w.f(cmp.v))
 			}
-			wantNil := map[int]bool{0: cmp.same, 1: true, 2: false}[eqf]
+			wantNil := map[int]bool{0: cmp.same, 1: true, 2: false, 3: false}[eqf]
 			if (err == nil) != wantNil {
 				return fmt.Sprintf("as %s, compared with %s in the same place: IsEqual=%v, want nil=%v (equality closure state %d: 0 none, 1 answers nil, 2 answers an error)", w.n, cmp.n, err, wantNil, eqf)
 			}
